@@ -401,7 +401,9 @@ def run_case(case, stats):
             env.close()
         return
     universe, leaves, S, base, final, *rest = body
-    T = 1
+    from vf.core.prog import engine_of as _engine_of
+
+    T = _engine_of(base, leaves)
     third = ({0, 1, 2} - {S, T}).pop()
     env = Env(leaves)
     try:
